@@ -1254,7 +1254,11 @@ func (r *Raft) appendConfigurationEntry(future *configurationChangeFuture) {
 		}
 	}
 
-	r.dispatchLogs([]*logFuture{&future.logFuture})
+	if !r.dispatchLogs([]*logFuture{&future.logFuture}) {
+		// The entry is in no log (the caller has its error and we have stepped
+		// down): this configuration must not become the one we act on.
+		return
+	}
 	index := future.Index()
 	r.setLatestConfiguration(configuration, index)
 	r.leaderState.commitment.setConfiguration(configuration)
@@ -1262,8 +1266,10 @@ func (r *Raft) appendConfigurationEntry(future *configurationChangeFuture) {
 }
 
 // dispatchLog is called on the leader to push a log to disk, mark it
-// as inflight and begin replication of it.
-func (r *Raft) dispatchLogs(applyLogs []*logFuture) {
+// as inflight and begin replication of it. It reports whether the logs were
+// stored; if not, the futures have been answered with the store's error and
+// this server is no longer leader.
+func (r *Raft) dispatchLogs(applyLogs []*logFuture) bool {
 	now := time.Now()
 	defer metrics.MeasureSince([]string{"raft", "leader", "dispatchLog"}, now)
 
@@ -1294,7 +1300,7 @@ func (r *Raft) dispatchLogs(applyLogs []*logFuture) {
 			applyLog.respond(err)
 		}
 		r.setState(Follower)
-		return
+		return false
 	}
 	r.leaderState.commitment.match(r.localID, lastIndex)
 
@@ -1305,6 +1311,7 @@ func (r *Raft) dispatchLogs(applyLogs []*logFuture) {
 	for _, f := range r.leaderState.replState {
 		asyncNotifyCh(f.triggerCh)
 	}
+	return true
 }
 
 // processLogs is used to apply all the committed entries that haven't been
